@@ -20,7 +20,7 @@ export function* workload({ tier, seed, prefix = 'C07' }) {
     if (tier !== 'quick' || rng.bool(0.3)) yield one(src, 'tsx', tier === 'quick' ? [{}] : [{}, { optimize: true, resolveType: true }], `odd-tsx|${f.slice(0, 40)}`);
   }
   // 2. grammar sampler
-  const nFuzz = tier === 'quick' ? 4000 : 120000;
+  const nFuzz = tier === 'quick' ? 25000 : 600000;
   for (let i = 0; i < nFuzz; i++) {
     const src = genModule(rng);
     yield one(src, rng.bool(0.15) ? 'tsx' : 'jsx', tier === 'quick' ? [randomOptions(rng)] : [randomOptions(rng), randomOptions(rng)], `fuzz|${hashStr(src.replace(/\s+/g, ' ').slice(0, 60)) % 100000}`);
@@ -29,7 +29,7 @@ export function* workload({ tier, seed, prefix = 'C07' }) {
   const fixtures = listFixtureInputs();
   for (const f of fixtures) {
     yield one(f.src, f.syntax, [f.options, {}, { optimize: true, resolveType: true }], `fixture|${f.name}`);
-    const nm = tier === 'quick' ? 12 : 200;
+    const nm = tier === 'quick' ? 40 : 800;
     for (let k = 0; k < nm; k++) yield one(mutate(f.src, rng), f.syntax, [rng.bool() ? f.options : randomOptions(rng)], `mut|${f.name}|${k}`);
   }
   // 4. adversarial + real-world TSX/JSX
@@ -65,6 +65,7 @@ export async function check(group, records) {
     const base = { gid: group.gid, vid: v.vid, feature: `${group.feature}|${optLabel(v.options)}` };
     if (!rec || rec.status === 'missing') { out.push(inconclusive({ ...base, reason: 'no record' })); continue; }
     if (rec.status === 'parse_error' || rec.status === 'config_error') { out.push({ verdict: 'skip', ...base, reason: rec.status }); continue; }
+    if ((rec.status === 'panic' || rec.status === 'crash') && rec.baseline_survives === false) { out.push({ verdict: 'skip', ...base, reason: 'pipeline fails without the visitor too' }); continue; }
     if (rec.status !== 'ok') { out.push(inconclusive({ ...base, reason: `transform did not return (${rec.status}); owned by C08` })); continue; }
     base.nontrivial = rec.input_jsx > 0;
     const bad = judge(rec);
